@@ -1,5 +1,5 @@
 """C08 -- field axioms with canonical representatives."""
-from .. import euclid, fieldbig, fields, tables
+from .. import euclid, fieldbig, fields, polyeuclid, tables
 
 
 def field_tables(ctx, families=("ref", "opt"), lite=False):
@@ -21,3 +21,6 @@ def run(ctx):
     fieldbig.big_tables(ctx)
     # step level: the extended-Euclid loop of prime_field_inv as a step machine; recorded loop states validated
     euclid.euclid_checks(ctx, which=("utils",))
+    # step level: the polynomial extended-Euclid loop of FQP.inv (with the library's own "rounded" division) as a
+    # step machine: invariant, no truncation, termination on every element of small fields; recorded loop states
+    polyeuclid.poly_euclid_checks(ctx)
